@@ -880,4 +880,39 @@ Lemma source_loops_pinned_lemma :
   Z.of_nat (List.length HDF_INTERNAL_VDS) = HDF_NUM_INTERNAL_VDS /\
   List.length _HDF_CHK_TBL_CLASS = 13%nat.
 Proof. repeat split; reflexivity. Qed.
+(** the string comparisons of the lookups: full strcmp for names and classes, prefix tests only against the
+    library's own class names and, in vscheckclass, for queries that start with the chunk-table prefix *)
+Lemma source_compares_pinned_lemma :
+  vscheckclass_compare =
+    "if(strncmp(vsclass,_HDF_CHK_TBL_CLASS,len))ret_value=strcmp(vsclass,vs->vsclass)?FALSE:TRUE;elseret_value=strncmp(vsclass,vs->vsclass,len)?FALSE:TRUE;"%string /\
+  vscheckclass_user = "if(vsclass==NULL){if(VSisinternal(vs->vsclass)==FALSE)ret_value=TRUE;}"%string /\
+  vsisinternal_test =
+    "if(strncmp(HDF_INTERNAL_VDS[i],classname,strlen(HDF_INTERNAL_VDS[i]))==0){ret_value=TRUE;break;}"%string /\
+  visinternal_test =
+    "if(strncmp(HDF_INTERNAL_VGS[i],classname,strlen(HDF_INTERNAL_VGS[i]))==0){ret_value=TRUE;break;}"%string /\
+  vfind_test = "if(vg->vgname!=NULL)if(!strcmp(vgname,vg->vgname))HGOTO_DONE((int32)(vg->oref));"%string /\
+  vfindclass_test = "if(vg->vgclass!=NULL)if(!strcmp(vgclass,vg->vgclass))HGOTO_DONE((int32)(vg->oref));"%string /\
+  vsfind_test = "if(!strcmp(vsname,vs->vsname))HGOTO_DONE((int32)(vs->oref));"%string /\
+  vsfindclass_test = "if(!strcmp(vsclass,vs->vsclass))HGOTO_DONE((int32)(vs->oref));"%string.
+Proof. repeat split; reflexivity. Qed.
 End Layout.
+
+(** a class lookup with an ordinary class name finds exactly the vdatas of that class: no prefix matching *)
+Lemma bytes_eqb_eq : forall a b, bytes_eqb a b = true <-> a = b.
+Proof.
+  induction a; destruct b; cbn; split; intro H; try discriminate; auto.
+  - apply andb_true_iff in H as [A B]. apply Z.eqb_eq in A. apply IHa in B. congruence.
+  - inversion H; subst. rewrite Z.eqb_refl. apply IHa. reflexivity.
+Qed.
+
+Lemma class_lookup_exact_lemma : forall t r q, is_prefix _HDF_CHK_TBL_CLASS q = false ->
+  (vscheckclass t r (Some q) = true <-> exists v, tget r t = Some v /\ s_class v = q /\ q <> []).
+Proof.
+  intros t r q N. unfold vscheckclass. destruct (tget r t) as [v|].
+  - destruct (s_class v) as [|x c] eqn:E.
+    + split; [discriminate|]. intros (v' & E1 & E2 & E3). inversion E1; subst. congruence.
+    + rewrite N. rewrite bytes_eqb_eq. split.
+      * intro H. exists v. split; [reflexivity|]. split; [congruence|]. subst q. discriminate.
+      * intros (v' & E1 & E2 & E3). inversion E1; subst. congruence.
+  - split; [discriminate|]. intros (v' & E1 & _). discriminate.
+Qed.
